@@ -51,7 +51,17 @@ def _utt_id(case, i):
     return _ID_POOLS[case.get("ids", 0) % len(_ID_POOLS)][i]
 
 
+# --file-prefix / --file-suffix of the case being judged (set by _setup; one case at a time per process)
+_NAMING = {"prefix": "", "suffix": ".pt"}
+
+
+def _fname(utt):
+    return _NAMING["prefix"] + utt + _NAMING["suffix"]
+
+
 def _setup(case, td):
+    _NAMING["prefix"] = case.get("file_prefix") or ""
+    _NAMING["suffix"] = case.get("file_suffix") or ".pt"
     raw = os.path.join(td, "raw")
     os.makedirs(raw)
     mp = os.path.join(td, "map.txt")
@@ -78,6 +88,10 @@ def _args(case, mp, outdir, manifest, workers):
         a += ["--manifest", manifest]
     if workers:
         a += ["--num-workers", str(workers)]
+    if case.get("file_prefix"):
+        a += ["--file-prefix", case["file_prefix"]]
+    if case.get("file_suffix"):
+        a += ["--file-suffix", case["file_suffix"]]
     return a
 
 
@@ -86,7 +100,14 @@ def _dir_bytes(d):
     if os.path.isdir(d):
         for fn in sorted(os.listdir(d)):
             with open(os.path.join(d, fn), "rb") as f:
-                out[fn] = f.read()
+                data = f.read()
+            # files are keyed as <id>.pt whatever --file-prefix / --file-suffix are in force
+            pre, suf = _NAMING["prefix"], _NAMING["suffix"]
+            if fn.startswith(pre) and fn.endswith(suf) and len(fn) > len(pre) + len(suf):
+                fn = fn[len(pre):len(fn) - len(suf)] + ".pt"
+            else:
+                fn = "unexpected file name: " + fn
+            out[fn] = data
     return out
 
 
@@ -164,7 +185,7 @@ def check_crash(case):
         if os.path.exists(manifest):
             shutil.copy(manifest, man5)
         for utt in listed:
-            with open(os.path.join(out5, utt + ".pt"), "wb") as f:
+            with open(os.path.join(out5, _fname(utt)), "wb") as f:
                 f.write(SENTINEL)
         # a resume is a new invocation: optionally a new interpreter with its own string-hash salt (fork()ed children
         # share the harness's), so that per-process values leaking into the per-utterance seeds are seen
@@ -192,6 +213,8 @@ def check_crash(case):
     if not crashed:
         labels.append("crash-point-not-reached")
     labels.append("resume in a new interpreter" if fresh is not None else "resume in a fork")
+    if case.get("file_prefix") or case.get("file_suffix"):
+        labels.append("--file-prefix / --file-suffix")
     return {"nontrivial": crashed and k >= 1 and case["dither"] > 0, "labels": labels}
 
 
@@ -263,6 +286,8 @@ def _base():
         comp=st.sampled_from([True, True, False]),
         # later invocations (resume / other worker count) in a new interpreter with another PYTHONHASHSEED, or in a fork
         fresh=st.sampled_from([None, None, 1, 2]),
+        file_prefix=st.sampled_from([None, None, None, "feat_", "x."]),
+        file_suffix=st.sampled_from([None, None, None, ".feat", ".pt.bak"]),
     )
 
 
@@ -317,19 +342,21 @@ def _grid(tier):
                             continue
                         yield {"lens": lens_all[:n], "seed": (11 + n) * (k % 2), "ids": n + k, "blank_lines": bool((n + k) % 2), "dither": 1.0, "comp": True,
                                "crash": {"k": k, "phase": phase, "kind": kind}, "workers": w, "delays": [7, 0, 3] if w else None,
-                               "fresh": (1 + k) if (k + cli_crash.PHASES.index(phase) + (kind == "soft")) % 3 == 0 else None}
+                               "fresh": (1 + k) if (k + cli_crash.PHASES.index(phase) + (kind == "soft")) % 3 == 0 else None,
+                               "file_prefix": "feat_" if (k + cli_crash.PHASES.index(phase)) % 4 == 1 else None,
+                               "file_suffix": ".feat" if (k + 2 * cli_crash.PHASES.index(phase) + (kind == "hard")) % 4 == 2 else None}
 
 
 def clauses(tier):
     return [
         Clause("crash_resume", check_crash,
                "generated single crash point; non-trivial = the fault fired with a non-empty completed prefix (k >= 1) and dither on",
-               _crash_cases, quick=16, thorough=600, shrink_quick=True, quick_shards=8,
+               _crash_cases, quick=32, thorough=600, shrink_quick=True, quick_shards=16,
                enumerate=_grid, enum_name="crash_point_grid"),
         Clause("crash_history", check_history,
                "2-3 successive crashes before the final clean run; non-trivial = at least two faults fired",
-               _history_cases, quick=8, thorough=300, quick_shards=4),
+               _history_cases, quick=16, thorough=300, quick_shards=8),
         Clause("worker_counts", check_workers,
                "uninterrupted runs with --num-workers 1..3 and drawn per-item delays vs --num-workers 0; non-trivial = >= 2 utterances, dither on",
-               _worker_cases, quick=8, thorough=150, quick_shards=4),
+               _worker_cases, quick=16, thorough=150, quick_shards=8),
     ]
